@@ -135,7 +135,10 @@ Lemma st_var_write x f : pres Rst (var_write x f). Proof. prim var_write. Qed.
 Lemma st_observer_read o : pres Rst (observer_read o). Proof. prim observer_read. Qed.
 Lemma st_user_call : pres Rst user_call. Proof. prim user_call. Qed.
 Global Hint Resolve st_set_var_wns st_var_write st_observer_read st_user_call : pres_st.
-Lemma st_run_effect a e : pres Rst (run_effect a e). Proof. prim run_effect. Qed.
+Lemma st_drop_var_handle x : pres Rst (drop_var_handle x). Proof. prim drop_var_handle. Qed.
+Global Hint Resolve st_drop_var_handle : pres_st.
+Lemma st_with_var_handle x m : pres Rst m -> pres Rst (with_var_handle x m). Proof. intros; unfold with_var_handle; go_st. Qed.
+Lemma st_run_effect a e : pres Rst (run_effect a e). Proof. destruct e; unfold run_effect; try (apply st_with_var_handle); go_st. Qed.
 Global Hint Resolve st_run_effect : pres_st.
 Lemma st_run_effects a l : pres Rst (run_effects a l). Proof. prim run_effects. Qed.
 Lemma st_should_cutoff n c a b : pres Rst (should_cutoff n c a b). Proof. prim should_cutoff. Qed.
